@@ -152,6 +152,27 @@ static inline EMapIt EMap_find(EMap *m, IC4 k)
   else it.pos = 0;
   return it;
 }
+/* std::map::lower_bound(k): iterator to the FIRST entry whose key is not less than k (pomerol's comparator), end() when every key is less.
+ * Ghost-key model: the ghost entry when it is present and equivalent to k (at most one entry per equivalence class); otherwise either an
+ * entry of another key e (content arbitrary; ASSUMED: !(e < k) -- the definition; e not equivalent to the ghost key -- keys are pairwise
+ * inequivalent; e < ghost key when the ghost entry is present and not less than k -- the FIRST such entry), or the ghost entry when it is
+ * present and not less than k, or end() when the ghost entry is absent or less than k.  (Its position in iteration order is not modelled:
+ * idx is arbitrary, so an increment of the result yields an arbitrary successor.) */
+static inline EMapIt EMap_lower_bound(EMap *m, IC4 k)
+{
+  EMapIt it; it.m = m; it.idx = nondet_long();
+  if (m->gpresent && ic4_equiv(k, g_X)) { it.pos = 1; return it; }
+  _Bool g_ge = m->gpresent && !IC4_lt(&g_X, k);
+  if (nondet_bool()) {
+    IC4 e = nondet_ic4();
+    __CPROVER_assume(!IC4_lt(&e, k));
+    __CPROVER_assume(!ic4_equiv(e, g_X));
+    __CPROVER_assume(!g_ge || IC4_lt(&e, g_X));
+    m->other = nondet_epair(e); it.pos = 2;
+  }
+  else it.pos = g_ge ? 1 : 0;
+  return it;
+}
 #define EMap_end(mp) ((EMapIt){(mp), 0})
 static inline _Bool op_eq_EMapIt_EMapIt(EMapIt *a, EMapIt *b) { return a->pos == b->pos; }      /* used only against end() */
 static inline _Bool op_ne_EMapIt_EMapIt(EMapIt *a, EMapIt *b) { return a->pos != b->pos; }
